@@ -7,9 +7,12 @@ export GOFLAGS=-mod=mod GOWORK=off GOPROXY=off GOSUMDB=off GOTOOLCHAIN=local
 W=$(mktemp -d /tmp/hvc-cs.XXXXXX); rmdir $W
 git -C /repo worktree add -q --detach $W HEAD || { echo "$D: worktree failed"; exit 2; }
 trap 'git -C /repo worktree remove --force $W >/dev/null 2>&1; rm -rf $W' EXIT
+# the package directory follows from the package clause of the demonstration (package main: the module named in demo.txt)
 PKG=hermes
-grep -q "src/hermes2go" $D/demo.txt 2>/dev/null && PKG=src/hermes2go
-grep -q "src/calcHermesBatch/zz" $D/demo.txt 2>/dev/null && PKG=src/calcHermesBatch
+if grep -q "^package main" $D/*_test.go; then
+  PKG=src/hermes2go
+  grep -q "src/calcHermesBatch/zz\|placed at .src/calcHermesBatch\|cd src/calcHermesBatch" $D/demo.txt 2>/dev/null && PKG=src/calcHermesBatch
+fi
 TESTS=$(cat $D/*_test.go | grep -o '^func Test[A-Za-z0-9_]*' | sed 's/func //' | grep -v TestMain | paste -sd'|')
 cp $D/*_test.go $W/$PKG/
 run_demo() { (cd $W/$PKG && timeout 300 go test -vet=off -count=1 -run "^($TESTS)\$" . 2>&1); }
